@@ -223,6 +223,9 @@ func (r *SqlManager) Deactivate(ctx context.Context, subject string) error {
 		if err != nil {
 			return changes, err
 		}
+		if err = noPendingChanges(tx, dids); err != nil {
+			return changes, err
+		}
 		transactionID := uuid.New().String()
 		for _, sqlDID := range dids {
 			sqlDoc, err := sqlDIDDocumentManager.CreateOrUpdate(sqlDID, nil, nil)
@@ -510,6 +513,9 @@ func (r *SqlManager) applyToDIDDocuments(ctx context.Context, subject string, op
 		if err != nil {
 			return nil, err
 		}
+		if err = noPendingChanges(tx, dids); err != nil {
+			return nil, err
+		}
 		transactionID := uuid.New().String()
 		for _, sqlDID := range dids {
 			id, err := did.ParseDID(sqlDID.ID)
@@ -539,6 +545,27 @@ func (r *SqlManager) applyToDIDDocuments(ctx context.Context, subject string, op
 		}
 		return eventLog, nil
 	})
+}
+
+// noPendingChanges returns ErrPendingChange if one of the DIDs has a document version that is still in the change log:
+// it's being published by another operation, or waits for the rollback loop to decide on it.
+// The next version must not be derived from such a version, since it may still be abandoned.
+func noPendingChanges(tx *gorm.DB, dids []orm.DID) error {
+	ids := make([]string, len(dids))
+	for i, curr := range dids {
+		ids[i] = curr.ID
+	}
+	var count int64
+	err := tx.Model(&orm.DIDChangeLog{}).
+		Joins("JOIN did_document_version ON did_document_version.id = did_change_log.did_document_version_id").
+		Where("did_document_version.did IN ?", ids).Count(&count).Error
+	if err != nil {
+		return err
+	}
+	if count > 0 {
+		return ErrPendingChange
+	}
+	return nil
 }
 
 // NewIDForService generates a unique ID for a service based on the service data.
